@@ -4,11 +4,12 @@
    Deadlock, Crash, RunOnDead, DestroyedWhileRunning and TooLong events are never enabled.
    Event fields: e, k (task), w (thread), n (count). MaxThreads comes with the Begin event. *)
 EXTENDS Naturals, FiniteSets, Sequences, TLC, Json, IOUtils
+CONSTANT Mode     \* "C07": task life cycle only; "C08": stop()/worker-count obligations as well
 VARIABLES x, l, ts, inClear, inStop, stopped, live, mx
 Ev == ndJsonDeserialize(IOEnv.TRACE_EVENTS)
 Ix == ndJsonDeserialize(IOEnv.TRACE_INDEX)
 Diag == "TRACE_DIAG" \in DOMAIN IOEnv /\ IOEnv.TRACE_DIAG = "1"
-TTasks == 1..12
+TTasks == 1..16
 TThreads == 0..31
 E == Ev[l]
 
@@ -30,8 +31,8 @@ TNext == \/ Is("Submit") /\ P!Submit(E.k) /\ Adv
          \/ Is("ClearCall") /\ P!ClearCall /\ Adv
          \/ Is("ClearRet") /\ P!ClearRet /\ Adv
          \/ Is("StopCall") /\ P!StopCall /\ Adv
-         \/ Is("StopRet") /\ P!StopRet(E.n) /\ Adv
-         \/ Is("WorkerStart") /\ P!WorkerStartM(E.w, mx) /\ Adv
+         \/ Is("StopRet") /\ P!StopRetM(E.n, Mode = "C08") /\ Adv
+         \/ Is("WorkerStart") /\ P!WorkerStartM(E.w, IF Mode = "C08" THEN mx ELSE 1000) /\ Adv
          \/ Is("WorkerExit") /\ P!WorkerExit(E.w) /\ Adv
          \/ Is("Quiescent") /\ P!Quiescent /\ Adv
          \/ Is("Done") /\ P!Done /\ Adv
